@@ -634,7 +634,8 @@ func genPayloadTask(rt *rapid.T, k int, big bool) sTask {
 	default:
 		pl = rapid.SliceOfN(rapid.Byte(), 1, 96).Draw(rt, "payload")
 	}
-	names := []string{"plain.txt", "with space.bin", "файл-юникод.dat", "a/b/../c.json", "tab\tname", "名前", "x", "bakedrange3", "bakedrange52694.json"} // (the last two look like the names given to baked messages)
+	names := []string{"plain.txt", "with space.bin", "файл-юникод.dat", "a/b/../c.json", "tab\tname", "名前", "x", "bakedrange3", "bakedrange52694.json",
+		"Договор_поставки_оборудования_и_материалов_2026.pdf", "名名名名名名名名名名名名名名名名名名名名.bin"} // (the last two look like the names given to baked messages)
 	file := rapid.SampledFrom(names).Draw(rt, "file") + "#" + strconv.Itoa(k)
 	tk := sTask{ID: fmt.Sprintf("msg-%d-%s", k, rapid.StringMatching(`[a-zA-Z0-9_]{1,8}`).Draw(rt, "id")), File: file, Payload: pl}
 	if len(pl) == 0 && rapid.Bool().Draw(rt, "strayRange") {
